@@ -247,6 +247,9 @@ func (s *Sim) Apply(o Option) bool {
 		c.cancel()
 		s.record(o.Label(), "-")
 	case "adv":
+		if s.ReqC {
+			s.advAfterClose++
+		}
 		s.clk.Travel(time.Duration(o.D) * time.Second)
 		var f []int64
 		for _, id := range s.order {
@@ -392,6 +395,10 @@ func (s *Sim) checkReturn(c *Call) {
 		if c.Ret == "closedNoRetry" && !c.Acked {
 			s.viol("C26", "class", "call %d was not acknowledged but failed with the non-retryable close error", c.ID)
 		}
+	}
+	// "promptly": the model's rank bounds a call's own steps (10, +2 per clock travel)
+	if s.ReqC && c.ownSteps > 10+2*s.advAfterClose {
+		s.viol("C26", "not-prompt", "call %d took %d own steps after ForceClose (bound %d)", c.ID, c.ownSteps, 10+2*s.advAfterClose)
 	}
 	if c.Ret == "closedRetry" && !s.Closed {
 		s.viol("C26", "class", "call %d failed with ErrEngineClosed although the engine was never closed", c.ID)
